@@ -32,8 +32,16 @@ LEVEL_TEXT = ('an executable Lean function packet bytes -> int16 PCM for SILK-on
 LEVEL_NOTE = 'trusted: Lean kernel; harness and line protocol; class membership of a packet is decided by the model (symbol layer tied by C03 stage 1)'
 TECHNIQUE = 'Lean 4 composition of tied models + theorems + differential correspondence against the public API'
 
-REQUIRED_THEOREMS = []
-UNPROVED = []
+REQUIRED_THEOREMS = ['OpusProps.C03SilkPipe.' + t for t in (
+    'silk_only_pipeline_is_composition', 'fresh_decoder_satisfies_invariant', 'silk_only_pipeline_total_partial', 'opus_frame_total',
+    'pipeline_frames_are_frame_ok')]
+UNPROVED = [
+    'silk_only_pipeline_total (full, from bytes): missing is the structural lemma that for every byte string the parser accepts as a SILK-only '
+    'mono packet the event list of SilkSyms.decodePacket holds, per Opus frame, exactly nFramesPerPacket normally decoded (indices, pulses) '
+    'pairs with frame_length pulses each (framesOfEvs o silkCalls), and the lifting over opusFrames / runPackets. PROVED '
+    '(silk_only_pipeline_total_partial, fresh_decoder_satisfies_invariant, pipeline_frames_are_frame_ok): from the decoded symbols on, '
+    'every stage is total, returns frame_count * frame_duration * Fs_API int16 samples and preserves the combined invariant, for any number '
+    'of frames; a fresh decoder satisfies the invariant; the frames the symbol layer delivers satisfy FrameOk']
 
 
 def _h(ctx, variant):
@@ -70,6 +78,7 @@ def _tie(name, cmd):
         return res
     model = common.model_eval(ins)
     npk = ncmp = nleft = 0
+    left = []
     for i, (inp, o) in enumerate(zip(ins, outs)):
         m = model[i] if i < len(model) else ''
         res.cases += 1
@@ -86,6 +95,7 @@ def _tie(name, cmd):
             b = mp[k] if k < len(mp) else '<missing>'
             if b.startswith('ERR@') and b.endswith('UNIMPLEMENTED') and not a.startswith('ERR'):
                 nleft += 1
+                left.append(inp)
                 break
             ncmp += 1
             if a != b:
@@ -102,6 +112,11 @@ def _tie(name, cmd):
                                    'model': 'packet %d: %d samples, sample %d = %s' % (bad, len(ys), j, ','.join(ys[j:j + 6]))})
         elif len(res.samples) < 2:
             res.samples.append(inp[:300] + ' … => ' + o[:120] + ' …')
+    if left:   # diagnostic: why the model put the packet outside the class
+        why = common.model_eval([l.replace('silkcore pipe-stream ', 'silkcore pipe-why ', 1) for l in left])
+        for w in why:
+            k = 'left-class-because:' + re.sub(r'^packet \d+: ', '', w).split('(')[0]
+            res.dist[k] = res.dist.get(k, 0) + 1
     res.n_mismatch = len(res.mismatches)
     res.notes.append('%s: packets=%d compared=%d streams_that_left_the_class=%d' % (name, npk, ncmp, nleft))
     if npk and ncmp < 0.8 * npk:
@@ -114,7 +129,7 @@ def _tie(name, cmd):
 def ties(ctx):
     hs, hp = _h(ctx, 'san'), _h(ctx, 'plain')
     _wait_driver()
-    n = 60 if ctx.quick else 1500
+    n = 60 if ctx.quick else 800
     specs = [('silkpipe-plain', [hp, 'rand', str(ctx.seed), str(n)]),
              ('silkpipe-san', [hs, 'rand', str(ctx.seed + 7919), str(n)])]
     from concurrent.futures import ThreadPoolExecutor
